@@ -61,6 +61,9 @@ open GoldilocksVerif
   ⟨Lane.blend32 (s 0) a.l0 b.l0, Lane.blend32 (s 1) a.l1 b.l1, Lane.blend32 (s 2) a.l2 b.l2,
    Lane.blend32 (s 3) a.l3 b.l3, Lane.blend32 (s 4) a.l4 b.l4, Lane.blend32 (s 5) a.l5 b.l5,
    Lane.blend32 (s 6) a.l6 b.l6, Lane.blend32 (s 7) a.l7 b.l7⟩
+/-- `vmovdqa32` with a merge mask: 32-bit element i := k[i] ? a : src, i.e. `mask_blend_epi32 k src a`
+  (not used by the pinned source; present so that a rewrite using it stays translatable) -/
+@[inline] def mask_mov_epi32 (src : V8) (k : BitVec 16) (a : V8) : V8 := mask_blend_epi32 k src a
 @[inline] def pick (a b : V8) (idx : BitVec 64) : BitVec 64 :=
   let t := if idx.getLsbD 3 then b else a
   match idx.toNat % 8 with
